@@ -75,10 +75,14 @@ type vpGenCfg struct {
 	uniq     int // max size of exactly-one groups (0 = none)
 	consts   bool
 	posOnly  bool // exactly-one groups only under an even number of negations
+	both     int  // number of enclosing equivalence / exclusive-or operands: inside them a sub-formula occurs at both polarities, whatever the number of negations
 }
 
 // vpGen builds, in parallel, the harness AST and the bf.Formula.
 func vpGen(c *vpGenCfg, depth int, neg bool) (*vpF, Formula) {
+	if c.both > 0 {
+		neg = true
+	}
 	nLeaf := c.nvars
 	if c.consts {
 		nLeaf += 2
@@ -123,12 +127,16 @@ func vpGen(c *vpGenCfg, depth int, neg bool) (*vpF, Formula) {
 		b, fb := vpGen(c, depth+1, neg)
 		return &vpF{kind: 6, kids: []*vpF{a, b}}, Implies(fa, fb)
 	case 4:
+		c.both++
 		a, fa := vpGen(c, depth+1, true) // both polarities
 		b, fb := vpGen(c, depth+1, true)
+		c.both--
 		return &vpF{kind: 7, kids: []*vpF{a, b}}, Eq(fa, fb)
 	case 5:
+		c.both++
 		a, fa := vpGen(c, depth+1, true)
 		b, fb := vpGen(c, depth+1, true)
+		c.both--
 		return &vpF{kind: 8, kids: []*vpF{a, b}}, Xor(fa, fb)
 	default:
 		maxSz := c.uniq
